@@ -153,6 +153,29 @@ theorem stateAtHash_below_fixed {c : Cfg} {s : St} {h a : Nat} (hh : s.db.height
   have hhdr := I.hdrKeep n h2 h1
   simp [answer, hh, hst, hh2n, hhdr]
 
+/-- The same through an UNSEEDED `RetentionFloor` (a node started without prune mode on the pruned database):
+`StateAtBlockNumber` probes the header and the hash→number mapping instead of the shared floor. -/
+theorem stateAtNumber_unseeded_fixed {c : Cfg} {s : St} {h a : Nat} (hh : s.db.height = some h) (I : InvA c s h a)
+    (hf : c.fixed = true) (hu : s.mem.floorState = 0) (n : Nat) (h1 : a ≤ n + 1) (h2 : n ≤ h) :
+    answer c s .stateAtNumber n = .ok := by
+  have hst : stateRead c s.db n h = .ok := by
+    apply stateRead_ok
+    intro _
+    exact hist_above I h1 (fun m _ _ => not_dirty_fixed _ _ hf)
+  have hh2n : s.db.has .h2n n = true := by
+    by_cases hn : a ≤ n
+    · exact (I.keepIn n hn h2 (not_dirty_fixed _ _ hf)).1
+    · have : n = a - 1 := by omega
+      rw [this]; exact I.carve hf (by omega)
+  have hhdr := I.hdrKeep n h2 h1
+  simp [answer, hh, hst, hh2n, hhdr, hu]
+
+/-- Unseeded, more than one block below the durable floor: the mapping is gone, the probe refuses. -/
+theorem stateAtNumber_unseeded_far_below {c : Cfg} {s : St} {h : Nat} (hh : s.db.height = some h)
+    (hu : s.mem.floorState = 0) (n : Nat) (h2n : s.db.has .h2n n = false) :
+    answer c s .stateAtNumber n = .notfound := by
+  simp [answer, hh, hu, h2n]
+
 /-- A state reader is never answered from incomplete history: no stale answer, at any block. -/
 theorem never_stale {c : Cfg} {s : St} {h a : Nat} (hh : s.db.height = some h) (I : InvA c s h a)
     (q : Q) (n m : Nat) : answer c s q n ≠ .stale m := by
@@ -384,8 +407,12 @@ def headBound (c : Cfg) (s : St) : Nat :=
 
 /-! ### the minimum age -/
 
-theorem age_of_reach {c : Cfg} {s : St} (R : Reach c s) (hm : Mono c.ts) (hma : c.minAge = true) :
-    ∀ n, n < effFloor s → c.ts n < s.cutoff := by
+/-- Over forks: with non-decreasing timestamps on every chain the node has followed, and — for the code that uses
+the cached sample as it is — no young block put between the head and the cached sample by a fork switch, every
+block below the floor is older than the minimum age. -/
+theorem age_of_reach_forks {c : Cfg} {s : St} (R : Reach c s) (hm : Mono c.ts) (hmf : ForksMono c s)
+    (hma : c.minAge = true) (hj : s.chain.mono = true) (hg : c.sampleChecked = true ∨ s.chain.fresh = true) :
+    ∀ n, n < effFloor s → s.tsAt c n < s.cutoff := by
   intro n hn
   have I := inv_reach R
   unfold Inv at I
@@ -399,10 +426,56 @@ theorem age_of_reach {c : Cfg} {s : St} (R : Reach c s) (hm : Mono c.ts) (hma : 
   | some h =>
     rw [hh] at I
     simp only at I
-    obtain ⟨a, IA, AG⟩ := I
+    obtain ⟨a, IA, _, AG⟩ := I
     unfold effFloor at hn
     rw [lo_of_inv hh IA] at hn
-    exact (AG hm hma).1 n hn
+    exact (AG hm hmf hj hma hg).1 n hn
+
+/-- Every operation but the fork switch leaves the chain record alone. -/
+theorem step_chain (c : Cfg) (s : St) (op : Op) (h : op ≠ .fork) : (step c s op).1.chain = s.chain := by
+  cases op with
+  | fork => exact absurd rfl h
+  | store => simp only [step]; repeat' split
+             all_goals rfl
+  | revert => simp only [step]; repeat' split
+              all_goals rfl
+  | writeL1 n => rfl
+  | evL1 n => simp only [step]; repeat' split
+              all_goals first | rfl | exact startPrune_chain _ _
+  | evL2 n => simp only [step]; repeat' split
+              all_goals first | rfl | exact startPrune_chain _ _
+  | flush k => simp only [step]; repeat' split
+               all_goals rfl
+  | finish => simp only [step]; repeat' split
+              all_goals rfl
+  | fail => simp only [step]; repeat' split
+            all_goals rfl
+  | crash seed => rfl
+  | tick => simp only [step]; repeat' split
+            all_goals rfl
+  | advance d => rfl
+  | migrate u => simp only [step]; repeat' split
+                 all_goals rfl
+
+/-- As long as the network has not switched forks the chain record is the initial one: the ghosts are `true` and
+the timestamps are `Cfg.ts`. -/
+theorem chain_of_reach_fork0 {c : Cfg} {s : St} (R : Reach c s) (h0 : s.chain.fork = 0) : s.chain = {} := by
+  induction R with
+  | init => rfl
+  | step op _ _ ih =>
+    by_cases hf : op = .fork
+    · subst hf
+      exact absurd h0 (by show ¬ _ + 1 = 0; omega)
+    · rw [step_chain c _ op hf] at h0 ⊢
+      exact ih h0
+
+theorem age_of_reach {c : Cfg} {s : St} (R : Reach c s) (hm : Mono c.ts) (hma : c.minAge = true)
+    (h0 : s.chain.fork = 0) : ∀ n, n < effFloor s → c.ts n < s.cutoff := by
+  intro n hn
+  have hc := chain_of_reach_fork0 R h0
+  have := age_of_reach_forks R hm (fun f a b => by rw [h0] at b; omega) hma (by rw [hc]) (Or.inr (by rw [hc])) n hn
+  unfold St.tsAt at this
+  simpa [h0] using this
 
 /-! ### The closed form the driver starts long chains from -/
 
@@ -480,6 +553,11 @@ theorem floor_run_le {c : Cfg} : ∀ (ops : List Op) (s : St), Reach c s → Leg
     simp only [run, maxAllowed]
     exact ⟨by omega, by omega⟩
 
+/-- The highest `head - retained` seen along the history (at the moments its operations were taken). -/
+def maxHeadBound (c : Cfg) : St → List Op → Nat
+  | _, [] => 0
+  | s, op :: ops => max (headBound c s) (maxHeadBound c (step c s op).1 ops)
+
 /-! ### A decidable version of `Legal`, to exhibit concrete reachable states -/
 
 def legalB (c : Cfg) (s : St) : Op → Bool
@@ -493,7 +571,7 @@ def legalB (c : Cfg) (s : St) : Op → Bool
     (match s.job with | .idle => true | _ => false) && (!u || c.migSkipsMissing) &&
     (match s.db.height, s.db.l1 with
      | some h, some l1 =>
-       match migKeep c h l1 (migMinAgeFloor c h l1 s.cutoff) with
+       match migKeep c h l1 (migMinAgeFloor (s.tsAt c) h l1 s.cutoff) with
        | some keep => (decide (0 < keep.toNat) || c.migZeroNoop) && decide (max (lo s.db) s.mem.keepMax ≤ keep.toNat)
        | none => true
      | _, _ => true)
